@@ -5,6 +5,7 @@ import (
 	"fmt"
 	"reflect"
 	"sort"
+	"strings"
 	"time"
 
 	cid "github.com/ipfs/go-cid"
@@ -207,4 +208,58 @@ func isZeroDeep(v interface{}) bool {
 	var out []string
 	diff(rv, z, "", &out)
 	return len(out) == 0
+}
+
+// nilMaddrPaths lists the comparator paths at which a decoded value holds a
+// nil multiaddr.Multiaddr interface (a hint that narrows re-encode keys).
+func nilMaddrPaths(v interface{}) string {
+	var out []string
+	var walk func(rv reflect.Value, path string, depth int)
+	walk = func(rv reflect.Value, path string, depth int) {
+		if depth > 8 || !rv.IsValid() {
+			return
+		}
+		if rv.Type() == tMaddrIf {
+			if rv.IsNil() {
+				out = append(out, path)
+			}
+			return
+		}
+		if rv.Type() == tCid || rv.Type() == tTime {
+			return
+		}
+		switch rv.Kind() {
+		case reflect.Ptr, reflect.Interface:
+			if !rv.IsNil() {
+				walk(rv.Elem(), path, depth+1)
+			}
+		case reflect.Struct:
+			for i := 0; i < rv.NumField(); i++ {
+				f := rv.Type().Field(i)
+				if f.PkgPath != "" {
+					continue
+				}
+				p := path
+				if !f.Anonymous || f.Type.Kind() != reflect.Struct {
+					p = join(path, f.Name)
+				}
+				walk(rv.Field(i), p, depth+1)
+			}
+		case reflect.Slice, reflect.Array:
+			for i := 0; i < rv.Len(); i++ {
+				walk(rv.Index(i), path+"[]", depth+1)
+			}
+		case reflect.Map:
+			for _, k := range rv.MapKeys() {
+				walk(rv.MapIndex(k), path+"[*]", depth+1)
+			}
+		}
+	}
+	walk(reflect.ValueOf(v), "", 0)
+	sort.Strings(out)
+	out = dedup(out)
+	if len(out) == 0 {
+		return "no-nil-multiaddr"
+	}
+	return "nil-multiaddr@" + strings.Join(out, ",")
 }
